@@ -174,6 +174,10 @@ func (rn *Runner) doStep(st Step) {
 		}
 	case "arm":
 		rn.node(st.N[0]).disk.Arm(*st.F)
+	case "arm-sticky":
+		rn.node(st.N[0]).disk.FailAfter(st.S, int(st.V[0]))
+	case "disarm":
+		rn.node(st.N[0]).disk.Disarm()
 	case "arm-leader":
 		if l := c.Leader(); l != nil {
 			l.disk.Arm(*st.F)
